@@ -209,9 +209,23 @@ func fields(s []byte) [][2]int {
 	return out
 }
 
-func c12Scenarios(tier string) []*world.Scenario {
-	var out []*world.Scenario
+func c12Gen(tier string, shard, nshards int, emit func(sc *world.Scenario) bool) {
 	thorough := tier == "thorough"
+	idx := 0
+	stop := false
+	// add builds the scenario only when it belongs to this shard
+	push := func(name string, s []byte, cuts []int) {
+		if stop {
+			return
+		}
+		idx++
+		if idx%nshards != shard {
+			return
+		}
+		if !emit(c12Scenario(name, s, cuts)) {
+			stop = true
+		}
+	}
 	// (a) all byte strings up to length L over the alphabet
 	L := 4
 	if thorough {
@@ -220,9 +234,9 @@ func c12Scenarios(tier string) []*world.Scenario {
 	var gen func(cur []byte)
 	gen = func(cur []byte) {
 		if len(cur) > 0 {
-			out = append(out, c12Scenario("enum", append([]byte{}, cur...), nil))
+			push("enum", append([]byte{}, cur...), nil)
 		}
-		if len(cur) == L {
+		if len(cur) == L || stop {
 			return
 		}
 		for _, c := range c12Alpha {
@@ -233,11 +247,11 @@ func c12Scenarios(tier string) []*world.Scenario {
 	// (b) single-position mutations and field replacements of valid requests; (c) every proper prefix
 	for ci, req := range c12Corpus() {
 		add := func(kind string, s []byte) {
-			out = append(out, c12Scenario(fmt.Sprintf("corpus%d-%s", ci, kind), s, nil))
+			push(fmt.Sprintf("corpus%d-%s", ci, kind), s, nil)
 			if thorough || kind == "field" {
 				for cut := 1; cut < len(s); cut++ {
 					if thorough || cut%5 == 1 {
-						out = append(out, c12Scenario(fmt.Sprintf("corpus%d-%s", ci, kind), s, []int{cut}))
+						push(fmt.Sprintf("corpus%d-%s", ci, kind), s, []int{cut})
 					}
 				}
 			}
@@ -254,7 +268,7 @@ func c12Scenarios(tier string) []*world.Scenario {
 					}
 				}
 			}
-			out = append(out, c12Scenario(fmt.Sprintf("corpus%d-prefix", ci), append([]byte{}, req[:p]...), nil))
+			push(fmt.Sprintf("corpus%d-prefix", ci), append([]byte{}, req[:p]...), nil)
 		}
 		for _, f := range fields(req) {
 			vals := append([]string{}, c12FieldValues...)
@@ -273,7 +287,29 @@ func c12Scenarios(tier string) []*world.Scenario {
 			}
 		}
 	}
-	return out
+}
+
+// c12FromName rebuilds a scenario from "C12/<label>/<hex input>/cuts[..]".
+func c12FromName(name string) *world.Scenario {
+	parts := strings.Split(name, "/")
+	if len(parts) < 4 || parts[0] != "C12" {
+		return nil
+	}
+	in, err := hex.DecodeString(parts[2])
+	if err != nil {
+		return nil
+	}
+	var cuts []int
+	for _, f := range strings.Fields(strings.Trim(strings.TrimPrefix(parts[3], "cuts"), "[]")) {
+		var v int
+		fmt.Sscanf(f, "%d", &v)
+		cuts = append(cuts, v)
+	}
+	sc := c12Scenario(parts[1], in, cuts)
+	if strings.HasPrefix(parts[1], "bomb") {
+		sc.Family = "bomb"
+	}
+	return sc
 }
 
 // bomb inputs are run in a child process under an address-space limit: an allocation bomb that kills
@@ -351,6 +387,6 @@ func c12Seq(tier string, shard, n int, deadline time.Time, res *Result) {
 func init() {
 	register(&Check{ID: "C12", Level: "model_checking",
 		Rule:      "(a) EVERY byte string up to length 4 (thorough 6) over {* $ - 0 1 2 9 CR LF g}; (b) for 12 valid requests EVERY single-position deletion, insertion and substitution (quick: from a 5-symbol subset; thorough: full alphabet, each also in every single-cut segmentation) and EVERY replacement of every count/length field by {empty, 0, -1, -2, 00, 01, +1, 1a, ' 1', '1 ', 2^31, 2^63, 10^20, -0}; (c) every proper prefix; (d) huge array counts in a child process under a 4 GiB address-space limit; each input is sent by one client while a witness client does GET and split MGET round trips before and after; oracle: no panic / fatal / livelock, witness replies correct, every byte sequence any node received parses under the strict Redis request grammar, and the offending connection ends closed, answered with an error, or holding a proper prefix of a valid request; distinct = observable outcomes",
-		Scenarios: c12Scenarios, Seq: c12Seq, BudgetQuick: 100, BudgetThorough: 1500,
+		Gen: c12Gen, FromName: c12FromName, Seq: c12Seq, BudgetQuick: 100, BudgetThorough: 1500,
 		Assumptions: []string{"strict grammar = what a Redis server accepts from RESP clients without answering 'Protocol error' (canonical decimal lengths, count >= 1); '*0' / '*-n' lines, which Redis skips silently, may be skipped, answered with an error or lead to a close"}})
 }
